@@ -267,6 +267,14 @@ func (c *Ctx) nonNegative(v ssa.Value, atoms []Atom, seen map[ssa.Value]bool) bo
 		if x.Op == token.ADD {
 			return c.nonNegative(x.X, atoms, seen) && c.nonNegative(x.Y, atoms, seen)
 		}
+		if x.Op == token.SUB {
+			// (one of several constants) − constant
+			if n, ok := constIntVal(x.Y); ok {
+				if lo, _, ok := constRange(x.X, 0); ok {
+					return lo-n >= 0
+				}
+			}
+		}
 	case *ssa.Call:
 		if bi, ok := x.Call.Value.(*ssa.Builtin); ok && (bi.Name() == "len" || bi.Name() == "cap") {
 			return true
@@ -287,6 +295,14 @@ func (c *Ctx) linearBound(idx, x ssa.Value, atoms []Atom, blk *ssa.BasicBlock, d
 	best := int64(-1 << 40)
 	found := false
 	for _, a := range atoms {
+		// base == len(x): base ≤ len − 0
+		if a.Kind == "cmp" && a.Op == "==" && (a.Subj == lenK && a.Val == bk || a.Subj == bk && a.Val == lenK) {
+			found = true
+			if d := int64(-1); d > best {
+				best = d
+			}
+			continue
+		}
 		if a.Kind != "cmp" || a.Subj != bk {
 			continue
 		}
